@@ -16,6 +16,15 @@ Section Endpoint.
   Let P := hdl_iface E.
   Definition esa := sa P.
 
+  (** IkeSa.to_dict as far as it is state: local and peer SPI, role, state, message ID, and for every CHILD_SA its
+      SPIs, protocol and mode (addresses and the selectors' text are configuration) *)
+  Record status_entry := mk_status { su_my_spi : bytes; su_peer_spi : bytes; su_init : bool; su_state : Z; su_msg_id : Z;
+                                     su_children : list (bytes * bytes * Z * Z) }.
+  Definition status_of (s : esa) : status_entry :=
+    let c := co (inner P s) in
+    mk_status (my_spi_b c) (peer_spi_b c) (is_init P s) (st c) (my_id P s)
+              (map (fun ch => (c_in ch, c_out ch, pr_proto (c_prop ch), c_mode ch)) (children c)).
+
   Record endpoint := mk_ep {
     table : list (nat * esa);                (* creation index (object identity) and the IkeSa, in list order *)
     next_cid : nat;
@@ -25,9 +34,10 @@ Section Endpoint.
     ep_now : Z;
     ep_kops : list kop;                      (* kernel operations issued during the current iteration *)
     ep_sent : list (dgram body);             (* datagrams written to the sockets during the current iteration *)
-    ep_routed : option nat }.                (* the IkeSa (creation index) whose process_message the dispatcher called *)
+    ep_routed : option nat;                  (* the IkeSa (creation index) whose process_message the dispatcher called *)
+    ep_status : option (list status_entry) }.   (* answer to the control-socket status query of this iteration *)
   #[export] Instance eta_ep : Settable _ :=
-    settable! mk_ep <table; next_cid; confs; ep_cookie_secret; ep_tape; ep_now; ep_kops; ep_sent; ep_routed>.
+    settable! mk_ep <table; next_cid; confs; ep_cookie_secret; ep_tape; ep_now; ep_kops; ep_sent; ep_routed; ep_status>.
 
   (** run one IkeSa-level function with the endpoint's environment: the tape and the clock go in, what is left of the
       tape and the kernel operations come out *)
@@ -127,7 +137,10 @@ Section Endpoint.
                   | Some m =>
                       let '(s2, reply) := process_message P (enter ep1 s1) m (ep_now ep1) in
                       let '(ep2, s3) := leave ep1 s2 in
-                      finish (send ep2 reply) cid s3
+                      (* an IKE_SA created for a request that was then ignored is of no use either (fix e1) *)
+                      if Z.eqb (state P s3) ST_INITIAL
+                      then send (ep2 <| table := remove_cid (table ep2) cid |>) reply
+                      else finish (send ep2 reply) cid s3
                   end
               end
           end
@@ -223,21 +236,24 @@ Section Endpoint.
     end.
   Definition force_timers (ep : endpoint) (cid : nat) (d r dl : Z) : endpoint :=
     ep <| table := set_timers (table ep) cid d r dl |> <| ep_kops := [] |> <| ep_sent := [] |> <| ep_tape := [] |>
-       <| ep_routed := None |>.
+       <| ep_routed := None |> <| ep_status := None |>.
 
   Inductive event :=
   | Ev_datagram (d : datagram)
   | Ev_acquire (my peer : Z) (tsi tsr : ts) (index : Z)
   | Ev_expire (spi : bytes) (hard : bool)
+  | Ev_status                                   (* control socket: the query is answered BEFORE the timer sweeps *)
   | Ev_none.
 
   (** one iteration of main_loop *)
   Definition iteration (ep : endpoint) (tnow : Z) (tp : list draw) (e : event) : endpoint :=
-    let ep0 := ep <| ep_now := tnow |> <| ep_tape := tp |> <| ep_kops := [] |> <| ep_sent := [] |> <| ep_routed := None |> in
+    let ep0 := ep <| ep_now := tnow |> <| ep_tape := tp |> <| ep_kops := [] |> <| ep_sent := [] |> <| ep_routed := None |>
+                  <| ep_status := None |> in
     let ep1 := match e with
                | Ev_datagram d => dispatch ep0 d
                | Ev_acquire my peer a b i => acquire ep0 my peer a b i
                | Ev_expire spi hard => expire ep0 spi hard
+               | Ev_status => ep0 <| ep_status := Some (map (fun x => status_of (snd x)) (table ep0)) |>
                | Ev_none => ep0
                end in
     timers ep1.
